@@ -193,23 +193,23 @@ def check(code, reg, o, want=("load", "classes", "fields", "keys", "types", "def
             for k, t in m.type.items():
                 if fw in ("pydantic", "sqlmodel") and (t is Unknown or t is Null):
                     continue
-                lab = unicodedata.normalize("NFKC", label(k))          # the compiler NFKC-normalises identifiers
+                raw = label(k)
+                lab = unicodedata.normalize("NFKC", raw)          # the compiler NFKC-normalises identifiers
                 if lab not in ft:
                     # a key equal to the model's own (unconverted) name gets the class-style label (one cache shared by
                     # convert_class_name and convert_field_name): accept that spelling of the sanitised key as well
                     for alt in (k, prepare_label(k, convert_unicode=cu, to_snake_case=False)):
-                        alt = unicodedata.normalize("NFKC", alt)
-                        if alt in ft:
-                            lab = alt
+                        if unicodedata.normalize("NFKC", alt) in ft:
+                            raw, lab = alt, unicodedata.normalize("NFKC", alt)
                             break
                 if lab not in ft:
-                    out.append(("keys", f"{cls.__name__}: no field for key {k!r} (expected name {lab!r})"))
+                    out.append(("field-equals-class-name" if clash_any else "keys", f"{cls.__name__}: no field for key {k!r} (expected name {lab!r})"))
                     continue
                 orig, has_default, dkind = ft[lab]
                 attaches = fw in ("pydantic", "sqlmodel") or (fw in ("attrs", "dataclasses") and o["meta"])
                 if "keys" in want and attaches:
                     if lab != k and orig != k:
-                        kind = "nfkc-renamed" if unicodedata.normalize("NFKC", label(k)) != label(k) and label(k) == k else "keys"
+                        kind = "nfkc-renamed" if raw == k and lab != raw else "keys"
                         out.append((kind, f"{cls.__name__}.{lab}: original key {k!r} is not recoverable (attached: {orig!r})"))
                     if lab == k and orig not in (None, k):
                         out.append(("keys", f"{cls.__name__}.{lab}: attached key {orig!r} differs from the key {k!r}"))
